@@ -30,6 +30,7 @@ def main():
             continue
         if getattr(mod, 'DRIVER', None):
             drivers.append(mod.DRIVER)
+        drivers.extend(getattr(mod, 'LEAN_TARGETS', []))
         checks.append({
             'property_id': pid,
             'quick_cmd': f'{PY} harness/check.py {pid} --tier quick',
